@@ -56,7 +56,21 @@ def render_file(lang: str, shapes: list[dict], salt: int):
             body, hdr, layout, s = getattr(R, lang)(sh, name)
         # Python classes cycle through the places a class statement can stand: module level, inside a function,
         # in an except handler (optional-dependency fallback), in a match case, in an else branch, in a with body
-        place = ("top", "top", "func", "except", "top", "case", "else", "func", "with")[i % 9] if lang == "python" else "top"
+        place = ("top", "top", "func", "except", "inner", "case", "else", "func", "with")[i % 9] if lang == "python" else "top"
+        if place == "inner":
+            # the class is defined inside ANOTHER class: the enclosing class has no method of its own, its lines of code
+            # are its own two plus the inner class's
+            inner = dict(s, **layout)
+            loc_inner = (inner["headerLines"] + inner["footerLines"] + inner["fill"]
+                         + sum(inner[k] * inner["l" + k] for k in ("pub", "stat", "clsm", "priv", "dunder", "prop", "setter", "ctor")))
+            outer = {k: 0 for k in ("pub", "stat", "clsm", "priv", "dunder", "prop", "setter", "ctor", "blank", "comment")}
+            outer.update({"fill": 1 + loc_inner, "keyword": False})
+            classes.append(dict(outer, **dict(layout, headerLines=1, footerLines=0), line=len(lines) + 1, name=f"Shell{salt}x{i}"))
+            lines += [f"class Shell{salt}x{i}:", f'    label_{i} = "shell"']
+            body = ["    " + l if l else l for l in body]
+            classes.append(dict(s, **layout, line=len(lines) + hdr + 1, name=name))
+            lines += body + ["", ""]
+            continue
         if place != "top":
             pre, ind, post = {
                 "func": ([f"def make_{salt}_{i}():"], 4, [f"    return {name}"]),
